@@ -301,7 +301,7 @@ class PathBasedRoutingProblem(RoutingProblem):
         """
         # Add routes greedily (no/little exploration),
         # but keep the list of unvisited nodes.
-        exit_penalty = np.max(self.route_costs)
+        exit_penalty = max(self.route_costs, default=0)
         time_penalty = 10
         node_costs = [0]*len(self.nodes)
         node_costs[self.depot_index] = exit_penalty
